@@ -65,6 +65,9 @@ type crudTable struct {
 
 type crudTruth struct {
 	Tables []*crudTable `json:"tables"`
+	// Excluded: table structs of the file that the history does not drive (outside the
+	// driver's domain, e.g. self-referencing keys); their functions are not called
+	Excluded []string `json:"excluded"`
 }
 
 // ---- the history driver ----
@@ -151,6 +154,15 @@ func cmdCrud(o *Out, p *Package, j Job) {
 		case strings.HasPrefix(name, "scanOne"), strings.HasPrefix(name, "Scan"):
 		default:
 			if r.classify(name) == "" {
+				ofExcluded := false
+				for _, x := range truth.Excluded {
+					if strings.Contains(name, x) {
+						ofExcluded = true
+					}
+				}
+				if ofExcluded {
+					continue
+				}
 				unclassified = append(unclassified, name)
 			} else {
 				unused = append(unused, name)
